@@ -1137,7 +1137,7 @@ theorem c07_resync_unsniffed (e : Enc) (f g : List Bytes) (d : Dec) (hc : ValidC
 /-! ## facts the model depends on (regenerated from /repo on every run) -/
 
 /-- the decoder checks every AU size read from an AU header against `MaxAccessUnitSize`
-(fix 0ff2240 is in the tree); the fragment header takes 2 bytes + the AU header -/
+(fix cbafb20 is in the tree); the fragment header takes 2 bytes + the AU header -/
 example : CodecAudio.mpeg4audioAuSizeChecked = true ∧ CodecAudio.mpeg4audioFragHeaderBytes = 2 := ⟨rfl, rfl⟩
 
 /-! ## non-vacuity: the hypotheses are satisfiable by non-trivial values -/
